@@ -163,3 +163,6 @@ package store
 //@   requires[bounded-request] count <= 1024
 //@   ensures err == nil ==> len(list) <= count && forall k int :: 0 <= k && k < len(list) ==> list[k] != nil
 //@   modifies nothing
+
+//@ func Account.Changes(self) -> (patch, err)
+//@   modifies nothing
